@@ -204,8 +204,8 @@ def rule_range(prog, rep):
               "diagonal blocks = softplus(masked raw weight) > 0", "diagonal blocks are not softplus-reparameterised")
 
 
-def rule_planar(prog, rep):
-    rep.rule("C11.planar", "planar layers stay invertible: with u^ = get_act_scale(), w.u^ == -1 + log(1 + "
+def rule_planar(prog, rep, R="C11.planar"):
+    rep.rule(R, "planar layers stay invertible: with u^ = get_act_scale(), w.u^ == -1 + log(1 + "
                            "softplus(w.u)) > -1 as a rational identity (dot product distributed over the sum, "
                            "w.w == |w|^2)", minimum=1)
     from . import c02
@@ -247,9 +247,9 @@ def rule_planar(prog, rep):
                 ok = lb is not None and lb[1] and is_const(lb[0]) and lb[0][1] >= -1
                 detail = f"w.u^ == {show(m_wtu, 120)} > {show(lb[0]) if lb else None}"
     except Inconclusive as e:
-        rep.undecided("C11.planar", site, "planar:w.u^>-1", str(e))
+        rep.undecided(R, site, "planar:w.u^>-1", str(e))
         return
-    rep.check(ok, "C11.planar", site, "planar:w.u^>-1", detail,
+    rep.check(ok, R, site, "planar:w.u^>-1", detail,
               detail + "; this is not the constrained value -1 + log(1 + softplus(w.u)): the projection does not "
                        "enforce w.u^ > -1 (needs division by |w|^2)")
 
